@@ -32,8 +32,16 @@ V02(segs, q) ==
   ELSE IF Canonical(segs, q.u) /\ ~Same(q.s, q.s2) THEN "stable_round_trip"
   ELSE "ok"
 
+(* c.sel: selections made with --node a --node b --format stable on the same file: exp = the read names of the records that *)
+(* touch a or b, in input order                                                                                                *)
+SelVerdict(c) ==
+  IF \E k \in 1..Len(c.sel) : c.sel[k].status # "ok" THEN "selection_with_format_failed"
+  ELSE IF \E k \in 1..Len(c.sel) : c.sel[k].got # c.sel[k].exp THEN "selection_with_format_not_the_touching_records_in_input_order"
+  ELSE IF \E k \in 1..Len(c.sel) : ~c.sel[k].same_as_whole_file_conversion THEN "selection_with_format_differs_from_whole_file_conversion"
+  ELSE "ok"
 Verdict(c) ==
   IF c.status # "ok" THEN "conversion_failed_" \o c.status
+  ELSE IF SelVerdict(c) # "ok" THEN SelVerdict(c)
   ELSE IF c.mode = "C01" THEN FirstBad(c, V01, Len(c.recs))
   ELSE FirstBad(c, V02, Len(c.recs))
 
